@@ -252,10 +252,10 @@ def run(rep):
     for (univ, names), (m, items) in enumerate_cases(plan).items():
         rep.add_mc(f"MC_Imports_Gen[{univ},{names}]", m, INVS)
         n = len(items)
-        if quick and n > 1500:
+        if quick and n > 1000:
             items = [it for it in items if it["case"]["variant"]["kind"] == "base" or rng.random() < 0.3]
-            if len(items) > 1500:
-                items = rng.sample(items, 1500)
+            if len(items) > 1000:
+                items = rng.sample(items, 1000)
         pending += compare_batch(rep, items)
         rep.bounds[f"universe_{univ}_{names}"] = dict(enumerated=n, replayed=len(items))
     rep.exhaustive = not quick
